@@ -320,7 +320,7 @@ func c14r4(c *Ctx, id string) {
 	g := "param(" + gp.Name() + ")"
 	nPanic := 0
 	allInstrs(fn, func(in ssa.Instruction) {
-		if _, ok := in.(*ssa.Panic); !ok {
+		if !isPanicLike(in) {
 			return
 		}
 		nPanic++
